@@ -219,7 +219,7 @@ PROPS["C16"] = {
         "modelled, not verified: hash/path_compression.rs and FriProof::compress transcribed by hand (P2/Model/PathCompression.lean, Compress.lean); FriProof decompression and verify_compressed are exercised on the implementation only (round trip + verdict equivalence oracle), their Lean model is partial",
     ],
     "level_text": "(C16b: Lean model of get_inferred_elements and CompressedFriProof::decompress and of the PLONK-level compress / decompress / verify_compressed, tied to the real code by requests decompress / vcompressed / pcompress incl. edited compressed proofs; theorems: first-wins maps — lookup in the compressed map returns the entry of the FIRST query with that index, sorting by key preserves lookups (qsort permutation lemma proved from scratch); acceptance by Fri.verify implies every omitted coset evaluation equals the inferred one (consistent_of_accept); per query round, for all layers incl. repeated indices and shared cosets, re-insertion of the inferred evaluations rebuilds the original evaluation vectors (decompress_query_aligned_partial); compression keeps every transcript part, so the challenges of the compressed proof are those of the original; verify_compressed accepts an accepted proof GIVEN the round trip (verifyCompressed_of_roundtrip); towards the closed round trip: step maps are first-wins per layer (compress_step_first_wins), for a well-formed accepted proof inferredElements succeeds and the evaluation part of decompress rebuilds exactly the evaluation vectors of every query round incl. duplicates and shared cosets (inferred_and_rebuilt_of_accept, rebuilt_evals), combineInitial reads only leaves, Merkle paths of the initial trees round-trip under an honest-tree witness with first-wins compressed paths (merkle_roundtrip_first_wins, initial_tree_paths_roundtrip) — the per-layer tree instance and the final reassembly into decompress(compress p) = p are NOT proved) Lean 4 theorem: Merkle multi-proof compression followed by decompression returns the original proofs for EVERY tree, cap height and index multiset (repeats and shared cosets included), against the actual prove function of the Merkle model; FriProof::compress tied to its Lean model by exact equality of the compressed proof on real proofs with colliding query indices; decompress/verify_compressed checked by the property's own oracle on the implementation (lossless, verdict-equivalent, also on tampered proofs)",
-    "level_note": "Trusted: Lean kernel, standard axioms, hand transcription tied by correspondence; generators force repeated indices and shared cosets (tiny LDE domains, 28-40 queries, arities 1-4, cap heights 0-4, zk on/off).",
+    "level_note": "Found (independent audit agents, reproduced here with harness/src/forge.rs) and repaired in /repo: F-C16-1 — verify_compressed accepted FORGED proofs for any circuit and any public inputs (no shape validation on the compressed path; the number of quotient identities was taken from the proof). The forged-shape generator stays in the check (plain and compressed verification must both reject). Trusted: Lean kernel, standard axioms, hand transcription tied by correspondence; generators force repeated indices and shared cosets (tiny LDE domains, 28-40 queries, arities 1-4, cap heights 0-4, zk on/off).",
     "assumptions": [],
     "rule": "accepted proofs of generated programs under collision-forcing configs; per proof: compress/decompress/verify_compressed oracle, model-vs-real compressed FRI proof, 3 path-roundtrip requests on real Merkle paths with chosen index multisets, 2 tampered variants; distinct = distinct request lines",
 }
@@ -525,7 +525,7 @@ PROPS["C10"] = {
         "multi-table glue: starky ships no multi-table verifier, so harness/src/c10.rs mod ctl composes get_ctl_data / prove_with_commitment / CtlCheckVars::from_proof / verify_stark_proof_with_challenges / verify_cross_table_lookups the way the documented consumer does, and Stark.verifyMulti mirrors that glue",
     ],
     "level_text": "(GL2Inst: helper_pair_iff, running_sum_telescopes, logup_running_sum instantiated at the model's own GL2; C09d: evalLookups / evalCtlChecks return and keep the accumulator count under LookupsOK / CtlVarsOK) Lean 4 model of the STARK verifier with column lookups (helper columns, Z running sum, first-row and wrap-around constraints) and cross-table lookups (CtlCheckVars::from_proof, eval_cross_table_lookup_checks, verify_cross_table_lookups, multi-table verifier) and of the MEANING of a lookup / cross-table lookup on traces as weighted multisets (Air.firstBadLookup, CtlSpec.holds); theorems: Air.firstBadLookup = none IFF for every value v the filter-weighted number of looking occurrences equals the frequency-weighted number of table occurrences (firstBadLookup_none_iff_sums; weights in GL, i.e. mod p), CtlSpec.holds IFF the weighted multisets of tuples agree (holds_iff_sums); logUp algebra over any field (C10b): the helper-column constraint pins h = f1/(x+a) + f2/(y+a), the running-sum constraint on a cyclic domain telescopes to sum(helpers - freq/(t+a)) = 0, tied to the model's evalHelperColumns / evalLookups terms; plus the C09 verifier theorems (acceptance decomposition, shape facts); tied to starky by exact agreement of verdicts/challenges on honest and tampered single- and multi-table proofs and of the multiset semantics with the harness's evaluator; implementation oracle: lookups hold on the trace => proof accepted, a single missing / extra / altered value on the looking side, the table, the frequencies, a filter, a helper or running-sum opening => no accepted proof",
-    "level_note": "Found with this machinery: F-C10-2 (next-row terms of table/frequencies columns ignored by the constraints: honest proof rejected; repaired in /repo), F-C10-1 (lookups with constraint_degree 0 are never enforced; known finding, not a small repair).",
+    "level_note": "F-C10-5 (verify_cross_table_lookups_circuit added VirtualTarget 0 to the looking sum; found by an audit agent, reproduced by ctl_circuit_vs_native, repaired in /repo). F-C10-2b (self-lookup, non-adjacent repeated looking tables, CTL tables of declared degree 2: honest systems rejected) is a known finding with demos under findings/audit-C10. Found with this machinery: F-C10-2 (next-row terms of table/frequencies columns ignored by the constraints: honest proof rejected; repaired in /repo), F-C10-1 (lookups with constraint_degree 0 are never enforced; known finding, not a small repair).",
     "assumptions": ["FRI proximity soundness", "random oracle", "collision resistance", "logUp soundness over the challenge space (Schwartz-Zippel)"],
     "rule": "column lookups: 1..4 looking columns, single / linear-combination / next-row / combined column forms, 5 filter kinds, degree 2 and 3, corruptions of looking side, table, frequencies, filters, noise cells; cross-table lookups: 2- and 3-table systems, a table looking twice, linear and next-row columns, product filters, 6 corruption kinds on either side, tampering of auxiliary cap/openings; distinct = distinct request lines",
 }
